@@ -331,6 +331,16 @@ func (mw *msgWriter) getMultipartBoundary(msg *Msg, mimetype MIMEType) string {
 	// A predefined boundary can only be used once, otherwise the delimiters of nested multiparts
 	// would be indistinguishable. It is therefore used for the outermost multipart only, nested
 	// multiparts get a generated boundary.
+	if msg.boundary != "" && mw.depth == 0 {
+		// The message may have been rendered before with another multipart as the outermost one
+		// (i. e. an attachment was added afterwards). That multipart must not keep the predefined
+		// boundary when it becomes a nested one
+		for otherType, boundary := range msg.multiPartBoundary {
+			if otherType != mimetype && boundary == msg.boundary {
+				delete(msg.multiPartBoundary, otherType)
+			}
+		}
+	}
 	if msg.boundary != "" && (mw.depth == 0 || msg.multiPartBoundary[mimetype] == msg.boundary) {
 		return msg.boundary
 	}
